@@ -294,6 +294,21 @@ def check(ctx):
                     ctx.ok('C09.2', ctx.site(outer_fn, bi, si), 'positive result is exactly the matcher\'s Some(Ok(Some(x)))')
                     continue
             ctx.fail('C09.2', ctx.site(outer_fn, bi, si), 'a positive verification result is manufactured without the matcher: %s' % fmt(st), key='C09.2|manufactured')
+    # the boolean "self has a signature from key": by name, or spelled out as is_some(matcher(self, key)?) when the thin
+    # helper has been inlined
+    matcher_host = scope['host'] if scope is not None else None
+    def sig_atom(x):
+        x = strip_sites(detry(x))
+        a = m_call(x, name='has_some_signature_from_key') or m_call(x, name='has_signature_from')
+        if a is not None and len(a) >= 2:
+            return (a[0], a[1])
+        i = m_call(x, name='is_some')
+        if i is not None and len(i) == 1:
+            y = strip_sites(detry(i[0]))
+            c = callee_of(y)
+            if c is not None and y[0] == 'call' and len(y[2]) >= 2 and ((matcher_host is not None and c.best_hash == matcher_host.hash) or c.name == 'has_signature_from_returning_metadata'):
+                return (y[2][0], y[2][1])
+        return None
     # ---- C09.4 threshold
     th = F.method1('Envelope', 'has_signatures_from_threshold')
     if th is None:
@@ -329,7 +344,7 @@ def check(ctx):
                 ctx.fail('C09.4', ctx.site(th, sb), 'threshold test: counter form ok=%s, Ok(true) by (count ? threshold=2) = %s (expected F,T,T)' % (counter_ok, rows), key='C09.4|table')
             # increment only on the passing edge of the per-key check
             def per_key(x):
-                a = m_call(x, name='has_some_signature_from_key') or m_call(x, name='has_signature_from') or m_call(x, name='has_signature_from_returning_metadata')
+                a = sig_atom(x)
                 return a is not None and strip_sites(a[0]) == P1 and strip_sites(a[1])[0] == 'elem'
             ok, info = guard_dominates(th, tb, [sb], lambda x: per_key(detry(x)) and x[0] == 'call', True)
             if ok:
@@ -380,7 +395,7 @@ def check(ctx):
             a = m_call(x, name=nm, self_suffix='Envelope')
             return a is not None and all(a[i] == ('param', i + 1) for i in range(nargs))
         return pred
-    wrapper('verify_signature_from', call_of('has_some_signature_from_key', 2) if F.method1('Envelope', 'has_some_signature_from_key') else call_of('has_signature_from', 2), True, lambda v: v == P1, 'has-signature is true')
+    wrapper('verify_signature_from', lambda x: x[0] == 'call' and sig_atom(x) == (P1, P2), True, lambda v: v == P1, 'has-signature is true')
     wrapper('verify_signatures_from_threshold', call_of('has_signatures_from_threshold', 3), True, lambda v: v == P1, 'the threshold check is true')
     wrapper('verify_signature', lambda x: prim_call(x) is not None and prim_call(x)[0] == P1, True, lambda v: v == P1, 'the signature verifies')
     def meta_val(v):
